@@ -4807,7 +4807,10 @@ class ParseCtx:
                 DTAG.SOURCE_LINE, lark_node_for_error.meta.line,
                 DTAG.SOURCE_COLUMN, lark_node_for_error.meta.column
         )
-        node = ProgramData.imbue(self._parse_stmt_seq(macro.parse_tree), DTAG.PARENT, macro)
+        body = self._parse_stmt_seq(macro.parse_tree)
+        if body is None:
+            body = ActionNode() # a macro with an empty body expands to nothing
+        node = ProgramData.imbue(body, DTAG.PARENT, macro)
         del self.bound_argument_stack[-1]
         self.active_macro = self.active_macro.parent
         return node
